@@ -86,7 +86,9 @@ def escape(ck, agg, b):
         agg.add("R19.2", f, "a packet that fills all 32 bytes (length byte 27) is accepted", bool(max_len) and max(max_len) == 27,
                 "the largest length byte on any queueing path is %r: a completely filled advertisement (length byte 27) is dropped" % (max(max_len) if max_len else None))
         # de-whiten after bit reversal (inverse order of advertise)
-        for out in outs[:1]:
+        tr_paths = [o for o in outs if any(e.kind in ("whitened", "reversed", "radio-read") for e in o.trace)]
+        agg.add("R19.2", f, "available() has a path that takes a payload from the radio (anchor)", bool(tr_paths), "no path reads the radio")
+        for out in tr_paths:
             wh = [e for e in out.trace if e.kind == "whitened"]
             rv = [e for e in out.trace if e.kind == "reversed"]
             agg.add("R19.2", f, "received bytes are bit-reversed, then de-whitened (inverse of advertise)", bool(wh) and bool(rv) and rv[0].seq < wh[0].seq and ble.unwrap(wh[0].data[0], "reversed")[0] is not None,
@@ -325,6 +327,36 @@ def scalar_codecs(ck, agg):
     return n
 
 
+def pa_level_fresh(ck, agg, b):
+    """R19.4 (freshness): 'a received packet carries the sender's PA level equal to what was advertised' - the level byte of the TX-power
+    structure is the PA level in force when the advertisement is assembled.  Driven through the class's own API, in the order an application
+    may use it: show_pa_level = True at 0 dBm, then pa_level = -12, then _make_payload(): the structure must read 02 0A F4."""
+    from . import c18
+    P = ck.prog
+    f_mk = P.method(b.cls, "_make_payload")
+    f_show = P.method(b.cls, "show_pa_level", "set")
+    f_pa = P.method(b.cls, "pa_level", "set")
+    st, pl = c18.scenario(b, False, False)
+    b.pin(st, 6, 0x07)
+    verdict = None
+    for o1 in b.run(f_show, [Const(True)], st):
+        if o1.kind != "return":
+            continue
+        for o2 in b.run(f_pa, [Const(-12)], o1.state):
+            if o2.kind != "return":
+                continue
+            for o3 in b.run(f_mk, [pl], o2.state):
+                if o3.kind != "return" or not isinstance(o3.value, Bytes):
+                    continue
+                cl = c18.cells(o3.value.parts)
+                got = [cl[i + 2] for i in range(len(cl) - 2) if cl[i] == 2 and cl[i + 1] == TB.AD_TX_POWER]
+                ok = got == [0xF4]
+                verdict = ok if verdict is None else (verdict and ok)
+                agg.add("R19.4", f_mk, "the advertised TX-power byte is the PA level in force when the packet is assembled", ok,
+                        "show_pa_level = True at 0 dBm, then pa_level = -12, then an advertisement: TX-power structure level byte(s) %r, expected [0xF4] (-12 dBm)" % (got,))
+    return verdict
+
+
 def pa_level_codec(ck, agg, b):
     """R19.4 for the TX-power structure (type 0x0A): the byte the advertiser encodes and the byte the receiver decodes into `pa_level` agree in
     width and signedness (-18 dBm must not come back as 238)"""
@@ -366,6 +398,9 @@ def pa_level_codec(ck, agg, b):
         decs.add(df)
     ck.absorb(it3)
     ck.analysed(f_dec)
+    fresh_ok = pa_level_fresh(ck, agg, b)
+    if not encs and fresh_ok is False:
+        return 1            # reported by the freshness clause: the structure does not follow the PA level, nothing to compare layouts with
     if not encs or not decs or None in decs:
         raise AnalysisError("PA level AD: encoded / decoded field not understood (enc %r, dec %r)" % (encs, decs))
     agg.add("R19.4", f_dec, "the advertised PA level is a signed byte on both sides", len(encs) == 1 and len(decs) == 1 and list(encs)[0][:2] == (1, True) and list(decs)[0][:2] == (1, True),
